@@ -255,3 +255,54 @@ Fixpoint dbuildD (du : list (string * list string)) (tbl : list (string * list n
   end.
 
 Definition decorateD (du : list (string * list string)) (tbl : list (string * list nstmt)) (att : lstate) (t : tree) : tree := dt_res (dbuildD du tbl att t).
+
+(* ---- with an identifier resolver ------------------------------------------------------------------ *)
+(* The paths the decorator computed (resolvePath: the resolver's answer filtered by the avoid table
+   and vendor stripping, C09) are data here: ast node id -> path.  A SelectorExpr whose Sel resolves
+   to a path is collapsed into one Ident (decorateSelectorExpr, with mergeDecorations = Model/Merge.v
+   collapse); an Ident with a path carries it. *)
+From DV Require Import Model.Merge.
+
+Fixpoint path_of (paths : list (N * (Z * N))) (id : N) : option val :=
+  match paths with
+  | [] => None
+  | (k, (l, u)) :: r => if N.eqb k id then Some (VStr l [] u) else path_of r id
+  end.
+
+Definition dnodeM (du : list (string * list string)) (tbl : list (string * list nstmt)) (att : lstate)
+           (paths : list (N * (Z * N))) (t : tree) (dk : list (string * kid dtree)) : tree :=
+  match path_of paths (tid t) with
+  | Some pv =>
+    if String.eqb (tkind t) "SelectorExpr" then
+      match dsub dk ["X"], dsub dk ["Sel"] with
+      | Some (One (Some x)), Some (One (Some sel)) =>
+        let xi := tid (dt_tree x) in
+        let si := tid (dt_tree sel) in
+        let ni := tid t in
+        let dd (i : N) (p : string) := dget (l_decs att) (i, p) in
+        let c := collapse (mkSlots (space_of (l_before att) ni) (dd ni "Start") (space_of (l_before att) xi) (dd xi "Start")
+                                   (dd xi "End") (space_of (l_after att) xi) (dd ni "X") (space_of (l_before att) si) (dd si "Start")
+                                   (dd si "End") (space_of (l_after att) si) (dd ni "End") (space_of (l_after att) ni)) in
+        Node ni "Ident"
+             ((match lookup (tvals (dt_tree sel)) "Name" with Some v => [("Name", v)] | None => [] end) ++ [("Path", pv)])
+             [] [("Start", i_start c); ("X", i_x c); ("End", i_end c)] (i_before c) (i_after c)
+      | _, _ => dnodeD du tbl att t dk
+      end
+    else if String.eqb (tkind t) "Ident" then set_val (dnodeD du tbl att t dk) ["Path"] pv
+    else dnodeD du tbl att t dk
+  | None => dnodeD du tbl att t dk
+  end.
+
+Fixpoint dbuildM (du : list (string * list string)) (tbl : list (string * list nstmt)) (att : lstate)
+         (paths : list (N * (Z * N))) (t : tree) : dtree :=
+  match t with
+  | Node id k vals kids decs b a =>
+    let dk := map (fun p => (fst p, match snd p with
+                                    | One (Some c) => One (Some (dbuildM du tbl att paths c))
+                                    | One None => One None
+                                    | Many l => Many (map (dbuildM du tbl att paths) l)
+                                    end)) kids in
+    DT t (dnodeM du tbl att paths t dk) dk
+  end.
+
+Definition decorateM du tbl att paths (t : tree) : tree := dt_res (dbuildM du tbl att paths t).
